@@ -342,13 +342,11 @@ func (c *cache) SetStorageConfigs(cfgs []StorageConfiguration) {
 		existing := c.storageWithCacheId(cfg.Id)
 		if existing != nil {
 			(*existing).Update(cfg)
+			storages = append(storages, existing)
 		} else {
 			s := NewDiskStorage(cfg.Id, cfg.Path, int64(cfg.Size), c.logger, c.now)
 			storages = append(storages, &s)
 		}
-	}
-	if len(storages) == 0 {
-		return
 	}
 	for _, s := range c.storages {
 		found := false
